@@ -315,6 +315,54 @@ def kl_members():
     return M
 
 
+def random_kl_member(seed):
+    """Seeded dro member whose probability set is a KL ball (or an entropy level set): 2-3 scenarios, singleton or interval
+    supports of a scalar random variable, dyadic data, affine / two-piece objective, optional expectation constraint."""
+    import random
+    r = random.Random(seed)
+    ns = r.choice([2, 3, 3])
+    phat = {2: [[0.5, 0.5], [0.25, 0.75]], 3: [[0.25, 0.5, 0.25], [0.5, 0.25, 0.25], [0.125, 0.375, 0.5]]}[ns]
+    q = r.choice(phat)
+    rad = r.choice([0.0625, 0.125, 0.25, 0.5])
+    pts = sorted(r.sample([0.0, 0.5, 1.0, 1.5, 2.0, 2.5, 3.0, 4.0], ns))
+    interval = r.random() < 0.35
+    use_entropy = r.random() < 0.2
+    pieces = r.choice([1, 2, 2])
+    c1, c2 = r.choice([0.5, 1.0, 2.0, 3.0]), r.choice([0.5, 1.0, 1.5])
+    econs = r.random() < 0.4
+    lim = r.choice([2.0, 3.0, 4.0])
+
+    def desc(a):
+        p = a.scen(ns)
+        x = a.dvar(())
+        y = a.dvar(())
+        z = a.rvar(())
+        F = a.ambiguity()
+        for s, v in enumerate(pts):
+            if interval:
+                a.supp(F, [s], a.ge(z, v), a.le(z, v + 0.25))
+            else:
+                a.supp(F, [s], a.eq(z, v))
+        if use_entropy:
+            a.prob(F, a.entropy_ge(p, 0.5 if ns == 2 else 0.875))
+        else:
+            a.prob(F, a.kldiv(p, A(q), rad))
+        if pieces == 2:
+            a.minsup(a.E(a.maxof(c1 * (x - z), c2 * (z - x)) + 0.25 * y), F)
+        else:
+            a.minsup(a.E(c1 * x - c2 * z * x + 0.25 * y), F)
+        if econs:
+            a.st(a.le(a.E(z - x - y), 0.0), forall=F)
+        else:
+            a.st(a.ge(x + y, 0.5))
+        a.st(a.ge(x, 0.0))
+        a.st(a.le(x, lim))
+        a.st(a.ge(y, 0.0))
+        a.st(a.le(y, 5.0))
+    desc.__name__ = 'randkl%d' % seed
+    return desc
+
+
 # ------------------------------------------------------------------ seeded random members
 def random_member(seed):
     """A random dro model inside the structural bound (1-3 scenarios, dim z <= 2, polyhedral sets,
@@ -416,6 +464,8 @@ def lookup(name):
     K = kl_members()
     if name in K:
         return K[name]
+    if name.startswith('randkl'):
+        return random_kl_member(int(name[6:]))
     if name.startswith('rand'):
         return random_member(int(name[4:]))
     raise KeyError(name)
